@@ -45,7 +45,9 @@ def gen_type(r, depth, maxd, in_record=False, field=False):
     if k == "str":
         return ["str"]
     if k == "list":
-        return ["list", gen_type(r, depth + 1, maxd, in_record)]
+        inner = gen_type(r, depth + 1, maxd, in_record)
+        # "la": the Form asks for a ListArray64 (starts/stops) instead of a ListOffsetArray64 - another builder class
+        return ["list", inner] + (["la"] if r.random() < 0.25 else [])
     if k == "reg":
         return ["reg", gen_type(r, depth + 1, maxd, in_record), r.choice([1, 2, 3])]
     if k == "opt":
@@ -93,6 +95,8 @@ def form_of(t):
                 "content": {"class": "NumpyArray", "primitive": "uint8", "parameters": {"__array__": "char"}},
                 "parameters": {"__array__": "string"}}
     if k == "list":
+        if len(t) > 2 and t[2] == "la":
+            return {"class": "ListArray64", "starts": "i64", "stops": "i64", "content": form_of(t[1])}
         return {"class": "ListOffsetArray64", "offsets": "i64", "content": form_of(t[1])}
     if k == "reg":
         return {"class": "RegularArray", "size": t[2], "content": form_of(t[1])}
@@ -408,7 +412,7 @@ def execute(node, case, rec, opts):
 
 def _kinds(t, out=None):
     out = out if out is not None else []
-    out.append(t[0] if t[0] != "num" else "num:" + t[1])
+    out.append("list:la" if t[0] == "list" and len(t) > 2 else t[0] if t[0] != "num" else "num:" + t[1])
     if t[0] in ("list", "reg", "opt", "unmasked"):
         _kinds(t[1], out)
     elif t[0] == "rec":
@@ -454,6 +458,8 @@ def simpler_types(t):
                 yield [k, sub] + t[2:]
         if k == "reg" and t[2] > 1:
             yield ["reg", t[1], 1]
+        if k == "list" and len(t) > 2:
+            yield ["list", t[1]]
     elif k == "rec":
         for key, sub in t[1]:
             yield sub
